@@ -26,38 +26,42 @@ theorem disabled_lookup_reads_other : Gen.c15SelfCompare = false := by decide
 unfolding depth `n`, `CallStm.EquivalentTo` holds iff the two calls have the
 same meaning. -/
 theorem equivCall_iff_sem_eq (n : Nat) (T U : Tab) (c d : Call)
-    (hT : T.wf = true) (hU : U.wf = true) (hc : c.wf = true) (hd : d.wf = true) :
+    (hT : T.wf = true) (hU : U.wf = true) (hc : c.wf = true) (hd : d.wf = true)
+    (hcc : c.completeIn T = true) (hdc : d.completeIn U = true) :
     equivCall Gen.c15SelfCompare n T U c d = true ↔ semCall n T c = semCall n U d := by
   rw [disabled_lookup_reads_other]
-  exact equivCall_iff n T U hT hU c d hc hd
+  exact equivCall_iff n T U hT hU c d hc hd hcc hdc
 
 /-- `Ast.EquivalentCall` on two compiled programs. -/
 theorem equiv_iff_sem_eq (a b : Prog) (ha : a.wf = true) (hb : b.wf = true) :
     equivalentCall Gen.c15SelfCompare a b = true ↔
       semCall (Prog.fuel a b) a.tab a.call = semCall (Prog.fuel a b) b.tab b.call := by
   simp only [Prog.wf, Bool.and_eq_true] at ha hb
-  exact equivCall_iff_sem_eq _ _ _ _ _ ha.1 hb.1 ha.2 hb.2
+  exact equivCall_iff_sem_eq _ _ _ _ _ ha.1.1 hb.1.1 ha.1.2 hb.1.2 ha.2 hb.2
 
-theorem equiv_refl (n : Nat) (T : Tab) (c : Call) (hT : T.wf = true) (hc : c.wf = true) :
+theorem equiv_refl (n : Nat) (T : Tab) (c : Call) (hT : T.wf = true) (hc : c.wf = true)
+    (hcc : c.completeIn T = true) :
     equivCall Gen.c15SelfCompare n T T c c = true :=
-  (equivCall_iff_sem_eq n T T c c hT hT hc hc).mpr rfl
+  (equivCall_iff_sem_eq n T T c c hT hT hc hc hcc hcc).mpr rfl
 
 theorem equiv_symm (n : Nat) (T U : Tab) (c d : Call)
     (hT : T.wf = true) (hU : U.wf = true) (hc : c.wf = true) (hd : d.wf = true)
+    (hcc : c.completeIn T = true) (hdc : d.completeIn U = true)
     (h : equivCall Gen.c15SelfCompare n T U c d = true) :
     equivCall Gen.c15SelfCompare n U T d c = true :=
-  (equivCall_iff_sem_eq n U T d c hU hT hd hc).mpr
-    ((equivCall_iff_sem_eq n T U c d hT hU hc hd).mp h).symm
+  (equivCall_iff_sem_eq n U T d c hU hT hd hc hdc hcc).mpr
+    ((equivCall_iff_sem_eq n T U c d hT hU hc hd hcc hdc).mp h).symm
 
 theorem equiv_trans (n : Nat) (T U W : Tab) (c d e : Call)
     (hT : T.wf = true) (hU : U.wf = true) (hW : W.wf = true)
     (hc : c.wf = true) (hd : d.wf = true) (he : e.wf = true)
+    (hcc : c.completeIn T = true) (hdc : d.completeIn U = true) (hec : e.completeIn W = true)
     (h1 : equivCall Gen.c15SelfCompare n T U c d = true)
     (h2 : equivCall Gen.c15SelfCompare n U W d e = true) :
     equivCall Gen.c15SelfCompare n T W c e = true :=
-  (equivCall_iff_sem_eq n T W c e hT hW hc he).mpr
-    (((equivCall_iff_sem_eq n T U c d hT hU hc hd).mp h1).trans
-      ((equivCall_iff_sem_eq n U W d e hU hW hd he).mp h2))
+  (equivCall_iff_sem_eq n T W c e hT hW hc he hcc hec).mpr
+    (((equivCall_iff_sem_eq n T U c d hT hU hc hd hcc hdc).mp h1).trans
+      ((equivCall_iff_sem_eq n U W d e hU hW hd he hdc hec).mp h2))
 
 /-! Non-vacuity: a well-formed program with a pipeline, a stage, a map literal,
 a disabled condition; it is equivalent to itself with a renamed scalar file type
@@ -99,29 +103,63 @@ theorem selfCompare_accepts_changed_condition :
   refine ⟨by decide, by decide, by decide, ?_⟩
   simp [semCall, modsD, Exp.sem, Atom.sem]
 
+/-- A wildcard binding is compared through what it expands to: `* = A` and
+`* = B` (same parameter names) are NOT equivalent, although the `*` entries
+themselves are skipped. -/
+private def wildCall (src : Key) : Call :=
+  { id := kA, decId := kA, mods := mods0,
+    binds := [(star, .atom (.ref 1 src [])), (kX, .atom (.ref 1 src kX)), (kY, .atom (.ref 1 src kY))] }
+example : (wildCall kA).wf = true ∧ equivCall false 1 [] [] (wildCall kA) (wildCall kA) = true ∧
+    equivCall false 1 [] [] (wildCall kA) (wildCall kB) = false := by decide
+
 /-! ## the lock -/
 
-/-- While `_lock` exists every `Lock()` fails and changes nothing. -/
+/-- Regenerated obligation: `Pipestance.Lock` registers its signal handler only
+AFTER the `_lock`-exists check, so an attacher that is refused is not
+registered. (Negative witness otherwise: `registerFirst_lets_third_writer_in`.) -/
+theorem handler_registered_after_check : Gen.c15RegisterFirst = false := by decide
+
+/-- While `_lock` exists every `Lock()` fails and leaves the lock file and the holders alone. -/
 theorem lock_exclusive (s : LockState) (p : Nat) (h : s.lockFile = true) :
-    lockStep s (.lock p) = (s, false) := by
+    (lockStep Gen.c15RegisterFirst s (.lock p)) = (s, false) := by
+  rw [handler_registered_after_check]
+  cases s
+  simp_all [lockStep]
+
+/-- In every history in which processes only unlock what they hold — and in which
+ANY process, including attachers that were refused, may die through the
+signal-handler path at any time — at most one process holds the pipestance for
+writing, while one does every further `Lock()` (a second, third, … mrp) is
+refused, and the death of a process that does not hold the lock never removes it. -/
+theorem at_most_one_writer (ops : List LockOp) (s : LockState)
+    (h : lockRun Gen.c15RegisterFirst lockInit ops = some s) :
+    s.holders.length ≤ 1 ∧
+    (∀ p q, p ∈ s.holders → (lockStep Gen.c15RegisterFirst s (.lock q)).2 = false) ∧
+    (∀ p, p ∉ s.holders → (lockStep Gen.c15RegisterFirst s (.signal p)).1.lockFile = s.lockFile ∧
+      (lockStep Gen.c15RegisterFirst s (.signal p)).1.holders = s.holders) := by
+  rw [handler_registered_after_check] at h ⊢
+  obtain ⟨hr, h0, h1⟩ := lockInv_run ops lockInit s lockInv_init h
+  cases hl : s.lockFile
+  · simp [h0 hl, lockStep, hl, hr]
+  · obtain ⟨r, hr'⟩ := h1 hl
+    refine ⟨by simp [hr'], by simp [hr', lockStep, hl], ?_⟩
+    intro p hp
+    have hne : ¬ p = r := by simpa [hr'] using hp
+    have hne' : ¬ r = p := fun h => hne h.symm
+    simp [lockStep, hr, hr', hl, hne, hne']
+
+/-- SIGINT/SIGTERM handling in the holder removes the lock file. -/
+theorem signal_unlocks (s : LockState) (p : Nat) (h : p ∈ s.registered) :
+    (lockStep Gen.c15RegisterFirst s (.signal p)).1.lockFile = false := by
   simp [lockStep, h]
 
-/-- In every history in which processes only unlock what they hold, at most
-one process holds the pipestance for writing, and while one does, any further
-`Lock()` (a second mrp) is refused. -/
-theorem at_most_one_writer (ops : List LockOp) (s : LockState) (h : lockRun lockInit ops = some s) :
-    s.holders.length ≤ 1 ∧ ∀ p q, p ∈ s.holders → (lockStep s (.lock q)).2 = false := by
-  obtain ⟨h0, h1⟩ := lockInv_run ops lockInit s lockInv_init h
-  cases hl : s.lockFile
-  · simp [h0 hl]
-  · obtain ⟨r, hr⟩ := h1 hl
-    simp [hr, lockStep, hl]
+/-- Negative witness: if the handler were registered before the check, a refused
+second mrp that dies removes the first one's lock and a third mrp attaches. -/
+theorem registerFirst_lets_third_writer_in :
+    ∃ s, lockRun true lockInit [.lock 1, .lock 2, .signal 2, .lock 3] = some s ∧ s.holders.length = 2 := by
+  exact ⟨_, rfl, rfl⟩
 
-/-- SIGINT/SIGTERM handling removes the lock file. -/
-theorem signal_unlocks (s : LockState) (p : Nat) : (lockStep s (.signal p)).1.lockFile = false := by
-  simp [lockStep]
-
-example : lockRun lockInit [.lock 1, .lock 2, .unlock 1, .lock 2, .signal 2, .lock 3]
-    = some { lockFile := true, holders := [3] } := by decide
+example : lockRun false lockInit [.lock 1, .lock 2, .signal 2, .lock 3, .unlock 1, .lock 2, .signal 2, .lock 3]
+    = some { lockFile := true, holders := [3], registered := [3] } := by decide
 
 end Props.C15
